@@ -545,6 +545,74 @@ func buildPlant(thorough bool, only func(string) bool) *plant {
 			}
 		}})
 	}
+	// sparse lists: few items, many bytes (what decoding reserves for the elements of a list must follow
+	// the number of elements, not the byte length of the list), and list / string headers that claim far
+	// more than the input holds, on a stream without an input limit
+	add(unit{phase: "alloc", limit: limitLarge, run: func(w *worker, from int) {
+		type tgt struct {
+			name string
+			mk   func() interface{}
+		}
+		tgs := []tgt{{"interface", func() interface{} { return new(interface{}) }}, {"[][]byte", func() interface{} { return new([][]byte) }},
+			{"[]string", func() interface{} { return new([]string) }}, {"[]interface{}", func() interface{} { return new([]interface{}) }},
+			{"[]uint64", func() interface{} { return new([]uint64) }}}
+		var inputs [][]byte
+		for _, kl := range [][2]int{{1, 64 << 10}, {1, 1 << 20}, {4, 256 << 10}} {
+			one := refrlp.Encode(refrlp.Str(bytes.Repeat([]byte{0x61}, kl[1])))
+			var payload []byte
+			for i := 0; i < kl[0]; i++ {
+				payload = append(payload, one...)
+			}
+			hdr := []byte{0xf7 + 3, byte(len(payload) >> 16), byte(len(payload) >> 8), byte(len(payload))}
+			inputs = append(inputs, append(hdr, payload...))
+		}
+		for _, h := range []string{"ff4000000000000000", "ff7fffffffffffffff", "fb40000000", "bf4000000000000000", "bb40000000", "fa400000"} {
+			b, _ := hex.DecodeString(h)
+			inputs = append(inputs, b)
+		}
+		k := 0
+		for _, in := range inputs {
+			in := in
+			w.limit.Store(uint64(limitSmall + 64*len(in)))
+			for _, tg := range tgs {
+				tg := tg
+				for _, api := range []string{"DecodeBytes", "Stream(0)", "Stream(len)"} {
+					api := api
+					k++
+					if k-1 < from {
+						continue
+					}
+					name := "sparse/" + api + "/" + tg.name
+					if !w.begin(k-1, nil, func() (string, string, map[string]interface{}) {
+						return "alloc", name, map[string]interface{}{"kind": "alloc", "input": hex.EncodeToString(in[:min(len(in), 16)]), "len": len(in), "api": name}
+					}) {
+						continue
+					}
+					f := func() {
+						switch api {
+						case "DecodeBytes":
+							rlp.DecodeBytes(in, tg.mk())
+						case "Stream(0)":
+							rlp.NewStream(bytes.NewReader(in), 0).Decode(tg.mk())
+						default:
+							rlp.NewStream(bytes.NewReader(in), uint64(len(in))).Decode(tg.mk())
+						}
+					}
+					var pan interface{}
+					func() {
+						defer func() { pan = recover() }()
+						f()
+					}()
+					if pan != nil {
+						w.a.viols = append(w.a.viols, viol{Scenario: "alloc", Oracle: "no-panic", CaseID: name,
+							Detail: map[string]interface{}{"input": hex.EncodeToString(in[:min(len(in), 16)]), "len": len(in), "api": name, "kind": "alloc", "panic": fmt.Sprint(pan)}})
+						continue
+					}
+					allocBatch("alloc", []allocCase{{name, in, f}}, w.a, &w.maxAlloc)
+				}
+			}
+		}
+	}})
 	nalloc := consensusAllocCount(thorough)
 	for bi := 0; bi < nalloc; bi++ {
 		bi := bi
